@@ -4,7 +4,7 @@
 set -u
 ID="$1"; MUT="$2"; shift; shift
 WT=/tmp/wt/$ID
-N=${MUT#mut}
+N=$(( ${MUT#mut} + ${SEED_OFFSET:-0} ))
 DEST=/verif/seeded/$ID-$N
 CONF=$(/verif/tools/confirm_seed.sh "$WT" "$MUT" 2>&1 | tail -1); RC=$?
 echo "$CONF"
